@@ -205,6 +205,11 @@ def iter_module_doctestables(module):
                         item = subval.__func__
                     else:
                         item = subval
+                    # A private name (``__name``) is stored in the class
+                    # namespace under its mangled spelling
+                    mangle_prefix = '_' + val.__name__.lstrip('_') + '__'
+                    if subkey.startswith(mangle_prefix) and not subkey.endswith('__') and val.__name__.strip('_'):
+                        subkey = subkey[len(mangle_prefix) - 2:]
                     yield key + '.' + subkey, item
 
 
